@@ -302,4 +302,11 @@ def m5_data(ctx):
     pattern_field_check(ctx, 'M5', 'convert_money')
 
 
-RULES = [('M1', m1_formula), ('M2', m2_rate_owner), ('M3', m3_table), ('M4', m4_literals), ('M5', m5_data)]
+def m6_suffixes(ctx):
+    """M6 scale suffixes of money literals: the two suffix tables (number / money reader) agree with 1000^k for every suffix the
+    regexes accept (shared with C02 G5)"""
+    from .C02 import g5_suffixes
+    g5_suffixes(ctx)
+
+
+RULES = [('M1', m1_formula), ('M2', m2_rate_owner), ('M3', m3_table), ('M4', m4_literals), ('M5', m5_data), ('G5', m6_suffixes)]
